@@ -36,6 +36,9 @@ class VirtualClock:
         t.perf_counter = lambda: self.offset
         t.monotonic = lambda: self.offset
         t.sleep = lambda s: self.advance(s)
+        t.time_ns = lambda: int((self.epoch.timestamp() + self.offset) * 1e9)
+        t.monotonic_ns = lambda: int(self.offset * 1e9)
+        t.perf_counter_ns = lambda: int(self.offset * 1e9)
         t.strftime = _time.strftime
         t.localtime = _time.localtime
         t.gmtime = _time.gmtime
@@ -64,6 +67,15 @@ class VirtualClock:
                         repl_obj = repl
                     self._saved.append((m, name, cur))
                     setattr(m, name, repl_obj)
+            # the same clock read through other spellings: `from time import monotonic`, `from datetime import datetime as dt`, ...
+            for name, cur in list(vars(m).items()):
+                for fn in ("time", "monotonic", "perf_counter", "sleep", "time_ns", "monotonic_ns", "perf_counter_ns"):
+                    if cur is getattr(_time, fn):
+                        self._saved.append((m, name, cur))
+                        setattr(m, name, getattr(self.time, fn))
+                if cur is _dt.datetime and name != "datetime":
+                    self._saved.append((m, name, cur))
+                    setattr(m, name, self.datetime)
         return self
 
     def uninstall(self):
